@@ -46,7 +46,7 @@ func init() {
 			"launch options = vCPU count (incl. 0, negative), product (incl. unknown), endorsement request ids, machine shapes (incl. unknown), early-accept, arbitrary RAM bank lists. " +
 			"Every case runs through GetFwGUIDToBlockMap, SevData.ExtractFromFirmware, sev.LaunchDigest, sev.UnsignedSnp, the three ovmf.ExtractMaterialGuestPhysicalRegions*, tdx.MRTD in default / legacy / early-accept / custom-bank modes and tdx.UnsignedTDX in a child process under ulimit -v 6 GiB. " +
 			"A call refutes the property when it panics, kills the process, uses more thread CPU than (10 s + 2 s/MiB of image) or allocates more than (256 MiB + 512 bytes per image byte), each multiplied by the number of measurements the call was asked for. " +
-			"non-trivial = every call on a hostile or well-formed image (the monitor decides on each); distinct = (mutated field = value class | entry point | outcome class) cells, outcome = ok or the error text with numbers stripped",
+			"non-trivial = a call on an image whose mutated fields belong to what that entry point parses (GUID table and whole-image mutations: every entry point; SEV fields: the SEV entry points; TDVF fields: the TDX entry points), or on a well-formed image; distinct = (first mutated field = value class [+ number of further mutations] | entry point | outcome class) cells, outcome = ok, PANIC or the error text with numbers stripped",
 		Assumptions: []string{
 			"the budget is the reading of 'unrelated to its size' that is enforced: CPU <= 10 s + 2 s/MiB, allocated bytes <= 256 MiB + 512*len(image), per measurement requested (UnsignedSnp with 15 vCPU counts gets 15x, UnsignedTDX with k shapes and early-accept 2k+1)",
 			"vCPU counts are kept <= 512 and RAM bank lists <= 64 entries: cost that grows with a launch option is related to that option, not to the image, and is not judged",
@@ -317,6 +317,24 @@ func outcome(err error) string {
 	return "err:" + s
 }
 
+// relevant reports whether a case's mutations touch what an entry point of the given side parses
+// (unmutated images are relevant to every entry point). Only such calls count as non-trivial cells:
+// a TDVF-only mutation is a plain well-formed image as far as the SEV path is concerned.
+func relevant(muts []mut, side string) bool {
+	if len(muts) == 0 {
+		return true
+	}
+	for _, m := range muts {
+		switch {
+		case strings.HasPrefix(m.field, "tbl."), strings.HasPrefix(m.field, "img."):
+			return true
+		case strings.HasPrefix(m.field, "sev.") && side == "sev", strings.HasPrefix(m.field, "tdx.") && side == "tdx":
+			return true
+		}
+	}
+	return false
+}
+
 func drawSize(r *rand.Rand) int {
 	x := r.IntN(100)
 	switch {
@@ -583,10 +601,13 @@ func run(c *core.Ctx) {
 			wd.start.Store(0)
 			if m.Panicked {
 				c.Cell("%s|%s|PANIC", cellKey, e.name)
+				c.Count("panic/"+e.name, 1)
 				continue
 			}
 			oc := outcome(err)
-			c.Cell("%s|%s|%s", cellKey, e.name, oc)
+			if relevant(cs.muts, e.side) {
+				c.Cell("%s|%s|%s", cellKey, e.name, oc)
+			}
 			if err == nil {
 				c.Count("ok/"+e.name, 1)
 				if (cs.class == "well-formed" || cs.class == "genuine") && cs.opts.Normal {
